@@ -349,8 +349,9 @@ func (s *svSrv) wait() { s.wg.Wait() }
 //
 //	svTagSnapVV: the replica applied a snapshot response whose version vector does not cover the log
 //	             prefix the snapshot contains (stored snapshot written while no versionvectors row existed);
-//	svTagDeactNoChange: DeactivateClient of a client that is attached to a document to which it never
-//	             stored a change (presenceless document) fails with ErrChangeNotFound.
+//	(svTagDeactNoChange – Deactivate of a client without a stored change at or below its checkpoint failed with
+//	             ErrChangeNotFound – is gone: repaired by hooks/fix-c11-deactivate-without-own-change.patch; the
+//	             situation is still counted (srv:deactivate-without-own-change) and a failure is a plain violation.)
 //	svTagDpPending: a client attached WITHOUT client.WithDisablePresence() to a presenceless document: the server
 //	             strips its initial presence change and never acknowledges it, so it stays in localChanges, is
 //	             re-sent with every request and re-applied to the client's own map after a snapshot response;
@@ -359,7 +360,6 @@ func (s *svSrv) wait() { s.wg.Wait() }
 //
 // `known=1` on the command line switches the tags on (props.d passes it once the findings are listed).
 var svTagSnapVV = ""
-var svTagDeactNoChange = ""
 var svTagDpPending = ""
 var svTagInitLost = ""
 
@@ -390,7 +390,6 @@ func svParseArgs() {
 		}
 		if a == "known=1" {
 			svTagSnapVV = "c06-snapshot-vector-dropped"
-			svTagDeactNoChange = "c11-deactivate-change-not-found"
 			svTagDpPending = "c12-stripped-initial-presence-pending"
 			svTagInitLost = "" // fixed in /repo ed1c9aca: a recurrence is a plain violation
 			svTagReattachOwn = "c04-reattach-own-change-filtered"
@@ -1335,8 +1334,9 @@ func (w *svWorld) detach(rep *svReplica) bool {
 
 func (w *svWorld) deactivate(cl *svClient) {
 	c := w.c
-	// predicate of svTagDeactNoChange: attached, and no stored row of this actor at or below the serverSeq of
-	// its stored checkpoint (what clusterServer.DetachDocument asks FindLatestChangeInfoByActor for)
+	// the situation that used to block Deactivate (ErrChangeNotFound, repaired): attached, and no stored row of
+	// this actor at or below the serverSeq of its stored checkpoint (what clusterServer.DetachDocument asks
+	// FindLatestChangeInfoByActor for) – presenceless document, attacher that opted out, push-only syncs only
 	neverStored := false
 	if cl.rep != nil && cl.rep.live && w.hasDoc {
 		neverStored = true
@@ -1356,17 +1356,16 @@ func (w *svWorld) deactivate(cl *svClient) {
 	c.Cmd("DEACT %s", cl.name)
 	if err != nil {
 		c.Obs("R err=%s", protoErrKind(err))
-		if neverStored && protoErrKind(err) == "changeNotFound" {
-			c.Count("srv:deactivate-change-not-found")
-			svOracle(c, "%sC11 Deactivate of %s fails with ErrChangeNotFound: it is attached to a document in which it has no stored change at or below its checkpoint", svTag(svTagDeactNoChange), cl.name)
-			w.afterStore()
-			return
-		}
-		svOracle(c, "C11 Deactivate of %s failed: %v", cl.name, err)
+		svOracle(c, "C11 Deactivate of %s failed (attached without an own change at or below its checkpoint: %v): %v", cl.name, neverStored, err)
+		w.afterStore()
 		w.dead = true
+		return
 	} else {
 		c.Obs("R ok")
 		c.Count("srv:deactivate")
+		if neverStored {
+			c.Count("srv:deactivate-without-own-change")
+		}
 		if cl.rep != nil && cl.rep.live {
 			c.Count("srv:deactivate-while-attached")
 		}
